@@ -257,6 +257,22 @@ fn main() {
 		eprintln!("replay of a synthetic real-time scenario re-runs the same shard with the recorded seed (best effort)");
 	}
 
+	if prop == "C08" || prop == "C18" {
+		// harness self-test: the helper process must run and log by itself, otherwise nothing below means anything
+		let vchild = std::env::var("VCHILD").unwrap_or_else(|_| "/verif/target/debug/vchild".into());
+		let st = args.scratch.join("selftest.log");
+		let ok = std::process::Command::new(&vchild)
+			.args([st.display().to_string(), "selftest".into(), "--exit-after".into(), "1".into(), "--no-overlap-probe".into()])
+			.stdin(std::process::Stdio::null())
+			.status()
+			.map(|s| s.success())
+			.unwrap_or(false)
+			&& std::fs::read_to_string(&st).map(|t| t.contains(" selftest start")).unwrap_or(false);
+		if !ok {
+			eprintln!("wxlib: the vchild helper ({vchild}) cannot be run: harness error");
+			std::process::exit(3);
+		}
+	}
 	match prop.as_str() {
 		"C01" => {
 			let mut i = 0usize;
